@@ -75,7 +75,7 @@ func ExtractTypeNameMap(v interface{}) (map[string]reflect.Type, map[string]stri
 	})
 
 	for k, v := range nameMap {
-		if v[0] == '[' {
+		if len(v) > 0 && v[0] == '[' {
 			v = formatArrayTypeName(v)
 			elemName := arrayRootElemName(v)
 			replaceName, ok := nameMap[elemName]
